@@ -241,7 +241,7 @@ func TestProp(t *testing.T) {
 
 	nStart := env.Pick(1200, 36000)
 	nCB := env.Pick(800, 24000)
-	nReq := env.Pick(1008, 30240)
+	nReq := env.Pick(1008, 15120)
 
 	var worlds []*world
 	for i, secure := range []bool{false, true} {
